@@ -216,7 +216,7 @@ CLAIMS['C14'] = {
             'BaseValidator.signature are assumed contracts (the latter with the bounded stand-in of C04)',
 }
 CLAIMS['C20'] = {
-    'text': 'PjRpcMocker._match_request, add and replace proved against the abstract view patches(endpoint, version, '
+    'text': 'PjRpcMocker._match_request, add, replace and remove proved against the abstract view patches(endpoint, version, '
             'method) = the list stored in the nested maps (tuple keys compared structurally): a patched method is answered by '
             'the FIRST patch of its queue, which then goes to the back of the queue - or is dropped if it is a `once` patch, '
             'the emptied queue being unregistered; the reply carries the request id (any int / str, also 0 and ""), the '
@@ -228,7 +228,7 @@ CLAIMS['C20'] = {
             'exactly when there is none) and keeps the queue length; an EMPTY queue counts as unpatched (-32601); the only '
             'exceptions that escape a request are those a patch callback raised. Frame: container contents only, no '
             'attribute of any pre-existing object.',
-    'note': 'under contract for UNPATCHED endpoints only: _on_request (exactly one pass-through call with the same arguments and its answer returned unchanged, or ConnectionRefusedError, as configured; an endpoint with an empty patch map counts as unpatched). Not under contract: remove(), reset(), the patched branches of _on_request (pass-through / refusal of unpatched endpoints, '
+    'note': 'under contract for UNPATCHED endpoints only: _on_request (exactly one pass-through call with the same arguments and its answer returned unchanged, or ConnectionRefusedError, as configured; an endpoint with an empty patch map counts as unpatched). remove() un-registers exactly the given method (or endpoint), hands back what it removed, raises KeyError exactly when there is nothing to remove and leaves every other queue untouched. Not under contract: reset(), the patched branches of _on_request (pass-through / refusal of unpatched endpoints, '
             'element-wise batches), start/stop patching. Assumed: the mocking package (MagicMock returns a new callable mock; '
             'calling it only records), callbacks may raise; representation invariant of the mocker (the outer map, the '
             'per-endpoint maps and the call records are distinct objects; stored queues are non-empty lists of well-formed '
